@@ -405,7 +405,92 @@ func c01Reset(c *fw.Ctx, t geom.T, kind model.Kind, layout geom.Layout, cl gen.F
 		c.Fail("setcoords-error", "SetCoords with aliasing input failed: %v", err)
 		return
 	}
-	expectGeom(c, "SetCoords(own Coord(i) slices reversed)", t, want, model.Opts{})
+	if !expectGeom(c, "SetCoords(own Coord(i) slices reversed)", t, want, model.Opts{}) {
+		return
+	}
+	if kind != model.LineString && kind != model.LinearRing {
+		return
+	}
+	// the same with only two interior coordinates exchanged: the first and the last
+	// argument are the geometry's own first and last coordinate, in place
+	cur = model.FromGeom(t)
+	if n := len(cur.C1); n >= 4 {
+		i, j := 1+r.Intn(n-2), 1+r.Intn(n-2)
+		if i == j {
+			j = 1 + (i % (n - 2))
+		}
+		want2 := cur.Clone()
+		want2.C1[i], want2.C1[j] = want2.C1[j], want2.C1[i]
+		arg2 := make([]geom.Coord, n)
+		for k := range arg2 {
+			arg2[k] = ca.Coord(k)
+		}
+		arg2[i], arg2[j] = arg2[j], arg2[i]
+		c.SetInput(map[string]any{"geometry": cur.String(), "then_SetCoords": fmt.Sprintf("its own Coord(i) slices with %d and %d exchanged", i, j)})
+		if c.Guard("panic", func() {
+			switch x := t.(type) {
+			case *geom.LineString:
+				_, err = x.SetCoords(arg2)
+			case *geom.LinearRing:
+				_, err = x.SetCoords(arg2)
+			}
+		}) {
+			return
+		}
+		c.Eval(1)
+		c.Count("setcoords_with_own_coordinates_two_exchanged")
+		if err != nil {
+			c.Fail("setcoords-error", "SetCoords with aliasing input failed: %v", err)
+			return
+		}
+		if !expectGeom(c, "SetCoords(own Coord(i) slices, two interior ones exchanged)", t, want2, model.Opts{}) {
+			return
+		}
+	}
+	// coordinates that are windows onto one array of the caller's (as a caller that
+	// fills a slab and slices it produces them), except for one or two that live
+	// elsewhere - with whatever capacity
+	stride := layout.Stride()
+	g3 := gen.Shape(r, kind, layout, cl, gen.ShapeOpts{NoEmptyPoint: true, MaxPts: 9})
+	if n := len(g3.C1); n >= 3 && stride > 0 {
+		slab := make([]float64, n*stride)
+		arg3 := make([]geom.Coord, n)
+		for k := 0; k < n; k++ {
+			copy(slab[k*stride:], g3.C1[k])
+			arg3[k] = slab[k*stride : (k+1)*stride] // capacity runs to the end of the slab
+		}
+		for rep := r.Range(1, 2); rep > 0; rep-- {
+			k := 1 + r.Intn(n-2)
+			capk := []int{stride, cap(arg3[0]) - k*stride, cap(arg3[0]) - k*stride + 1, 2 * stride}[r.Intn(4)]
+			if capk < stride {
+				capk = stride
+			}
+			foreign := make(geom.Coord, stride, capk)
+			copy(foreign, g3.C1[k])
+			arg3[k] = foreign
+			for q := 0; q < stride; q++ {
+				slab[k*stride+q] = -6.5e77 // what the slab holds there is not the coordinate
+			}
+		}
+		c.SetInput(map[string]any{"first": cur.String(), "then_SetCoords": g3.String(), "passed_as": "windows onto one array, one or two coordinates allocated separately"})
+		if c.Guard("panic", func() {
+			switch x := t.(type) {
+			case *geom.LineString:
+				_, err = x.SetCoords(arg3)
+			case *geom.LinearRing:
+				_, err = x.SetCoords(arg3)
+			}
+		}) {
+			return
+		}
+		c.Eval(1)
+		c.Count("setcoords_with_windows_onto_one_array")
+		if err != nil {
+			c.Fail("setcoords-error", "SetCoords with coordinates sliced from one array failed: %v", err)
+			return
+		}
+		expectGeom(c, "SetCoords(windows onto one array, some coordinates elsewhere)", t, g3, model.Opts{})
+	}
 }
 
 // c01WrongLength injects one coordinate of wrong length at a random position.
